@@ -220,8 +220,13 @@ pub fn run_case(rep: &mut Report, case: &Case, verbose: bool) {
         Some(m)
     };
     let mut parent: Option<u8> = None; // 0 = P, 1 = Q
+    let mut copy_done = false;
     for step in 0..case.steps {
-        let action = rng.gen_range(0..if case.master_only_last { 12 } else { 10 });
+        let action = match rng.gen_range(0..if case.master_only_last { 14 } else { 12 }) {
+            10 | 11 => 20, // stray copy of a parent Announce on another port
+            12 | 13 => 10,
+            a => a,
+        };
         match action {
             0..=4 => {
                 // the current parent (or P, if none) announces with new contents
@@ -325,6 +330,27 @@ pub fn run_case(rep: &mut Report, case: &Case, verbose: bool) {
                 }
                 if !check_all(&mut node, rep, &expected, phase_label, &format!("step {step}: after set_clock_quality + BMCA")) {
                     return;
+                }
+            }
+            20 => {
+                // a delayed / looped-back copy of an Announce of the parent (its identity, other
+                // contents) reaches a port that is not the slave port: only Announces received on the
+                // slave port refresh the view
+                // (once per case: a second copy within the foreign master window would make the parent a
+                // qualified master on that port as well, which legitimately changes the topology)
+                if parent.is_some() && !copy_done {
+                    copy_done = true;
+                    let use_q = parent == Some(1);
+                    let (body, flags) = if use_q { rand_parent_body(&mut rng, clock_id(0x08).0, 50) } else { rand_parent_body(&mut rng, clock_id(0x10).0, 100) };
+                    let r = if use_q { &q_remote } else { &p_remote };
+                    let mut m = r.src.announce(r.ann_seq.wrapping_sub(rng.gen_range(1..4)), body);
+                    m.hdr.flags = flags;
+                    let other_port = rng.gen_range(1..case.n_ports);
+                    call!(other_port, Call::GeneralRx(m.encode()));
+                    rep.ev("parent_copy_on_other_port");
+                    if !check_all(&mut node, rep, &expected, phase_label, &format!("step {step}: a copy of a parent Announce with other contents arrived on port {other_port}")) {
+                        return;
+                    }
                 }
             }
             10 | 11 => {
